@@ -228,14 +228,24 @@ def same_parts(a, b, heads, tol):
         sorted(x.tobytes() for x in a[heads:]) == sorted(x.tobytes() for x in b[heads:])
 
 
-def classify(f, E, kin, wclean):
+def classify(f, E, kin, wclean, ihmax=None):
     """Trigger predicate for an oracle failure (Appendix D); None = unclassified."""
     if f["clause"] == "sum_exact":
         nparts = int(wclean.max()) if wclean.size else 0
         if nparts == 0 and float(kin.max()) - float(kin.min()) < 1e-9 and np.asarray(E).any():
             return "constant_nonzero_spectrum"
         if nparts > 0 and (wclean == 0).any() and not (f["lost"] & (wclean != 0)).any():
-            return "wshed_label0_bins"
+            # The known finding is the THICK watershed zone of the unmodified algorithm (five clean-up sweeps).  It is
+            # recognised precisely: the reference transliteration of the unmodified specpart.c must leave exactly the
+            # same bins at 0 for the same float32 input; any other label-0 bin is a different defect.
+            if ihmax is None:
+                return "wshed_label0_bins"
+            from ..ref_specpart import partition_py
+
+            ref, _ = partition_py(np.asarray(kin, dtype=np.float32), int(ihmax))
+            if np.array_equal(np.asarray(ref) == 0, np.asarray(wclean) == 0):
+                return "wshed_label0_bins"
+            return "label0_bins_not_explained_by_five_sweeps"
     return None
 
 
@@ -452,7 +462,7 @@ def make_np_case(inp):
             fails, amb, ws_amb = oracle(method, res, Ev, freq, dirs, wclean, mask, mask_amb, inp["wscut"], req, tol, tolws, ktol)
             ofails = []
             for f in fails:
-                trig = classify(f, Ev, kin, wclean)
+                trig = classify(f, Ev, kin, wclean, ihmax)
                 if trig is None and noncontig and f["clause"] not in base_fail_clauses and lname != "C":
                     trig = "noncontiguous_kernel_input"
                 ofails.append(dict(clause=f["clause"], what=f["what"], trigger=trig))
@@ -621,7 +631,7 @@ def make_acc_case(inp):
         fails, amb, ws_amb = oracle(method, o, Ev, freq, dirs, wclean, mask, mask_amb, inp["wscut"], req, tol, tolws, ktol)
         ofails = []
         for f in fails:
-            trig = classify(f, Ev, kin, wclean)
+            trig = classify(f, Ev, kin, wclean, inp["ihmax"])
             if trig is None and noncontig and layout == "stored_permuted":
                 rf, _, _ = oracle(method, np.asarray(ref_t.values[(slice(None),) + pos]), Ev, freq, dirs, wclean, mask, mask_amb,
                                inp["wscut"], req, tol, tolws, ktol)
